@@ -1,0 +1,383 @@
+//! Hooks for external verification machinery.  Compiled only with
+//! `--cfg gothenburgbitfactory_taskchampion_verif`; nothing here is part of the library's API.
+//!
+//! * [`MemStore`]: an in-memory object store whose every request (and every page of a listing)
+//!   first waits at a gate that a single-threaded driver opens, so that requests of several
+//!   clients can be interleaved, failed before they take effect, or performed with the reply
+//!   lost; creation times are set by the driver.
+//! * [`VerifCloud`]: the object-store server over such a store, with an explicit cleanup entry.
+//! * [`set_randint`]: a fixed replacement for the server's random draws.
+//! * [`seal`] / [`unseal`]: the sealing of one value.
+//! * [`failpoint`]: named points between the internal steps of the local and git backends.
+use super::cloud::CloudServer;
+use super::cloud::{AsyncObjectIterator, ObjectInfo, Service};
+use super::encryption::{Cryptor, Sealed, Unsealed};
+use super::{
+    AddVersionResult, GetVersionResult, HistorySegment, Server, Snapshot, SnapshotUrgency,
+    VersionId,
+};
+use crate::errors::{Error, Result};
+use async_trait::async_trait;
+use std::collections::BTreeMap;
+use std::future::Future;
+use std::pin::Pin;
+use std::sync::{Arc, Mutex};
+use std::task::{Context, Poll};
+
+/// What a gated request is about to do.
+#[derive(Clone, Debug, PartialEq, Eq)]
+pub enum SvcReq {
+    Put(String, Vec<u8>),
+    Get(String),
+    Del(String),
+    /// one page of a listing: prefix and the last name already returned
+    ListPage(String, Option<String>),
+    Cas(String, Option<Vec<u8>>, Vec<u8>),
+}
+
+/// What the driver decides for a request waiting at its gate.
+#[derive(Clone, Debug, PartialEq, Eq)]
+pub enum GateCmd {
+    Proceed,
+    /// report an error without touching the store
+    FailBefore,
+    /// perform the request, then report an error
+    FailAfter,
+}
+
+#[derive(Clone, Debug, PartialEq, Eq)]
+pub enum GateState {
+    Idle,
+    Waiting,
+    Released(GateCmd),
+}
+
+/// The shared state of the store and of the gates of its clients.
+pub struct MemStoreInner {
+    pub objects: BTreeMap<String, (Vec<u8>, u64)>,
+    pub now: u64,
+    pub page_size: usize,
+    pub gated: bool,
+    pub gates: Vec<GateState>,
+    pub pending: Vec<Option<SvcReq>>,
+    /// requests performed, in order: (client, request)
+    pub log: Vec<(usize, SvcReq)>,
+}
+
+#[derive(Clone)]
+pub struct MemStore(pub Arc<Mutex<MemStoreInner>>);
+
+impl MemStore {
+    pub fn new(clients: usize, page_size: usize) -> MemStore {
+        MemStore(Arc::new(Mutex::new(MemStoreInner {
+            objects: BTreeMap::new(),
+            now: 1,
+            page_size,
+            gated: false,
+            gates: vec![GateState::Idle; clients],
+            pending: vec![None; clients],
+            log: vec![],
+        })))
+    }
+}
+
+struct GateFut {
+    client: usize,
+    store: MemStore,
+}
+
+impl Future for GateFut {
+    type Output = GateCmd;
+    fn poll(self: Pin<&mut Self>, _cx: &mut Context<'_>) -> Poll<GateCmd> {
+        let mut st = self.store.0.lock().unwrap();
+        match st.gates[self.client].clone() {
+            GateState::Released(c) => {
+                st.gates[self.client] = GateState::Idle;
+                Poll::Ready(c)
+            }
+            _ => Poll::Pending,
+        }
+    }
+}
+
+/// One client's connection to the store.
+pub struct MemService {
+    client: usize,
+    store: MemStore,
+}
+
+impl MemService {
+    pub fn new(store: MemStore, client: usize) -> MemService {
+        MemService { client, store }
+    }
+
+    async fn gate(&self, req: SvcReq) -> GateCmd {
+        {
+            let mut st = self.store.0.lock().unwrap();
+            if !st.gated {
+                st.log.push((self.client, req));
+                return GateCmd::Proceed;
+            }
+            st.pending[self.client] = Some(req);
+            st.gates[self.client] = GateState::Waiting;
+        }
+        let cmd = GateFut {
+            client: self.client,
+            store: self.store.clone(),
+        }
+        .await;
+        let mut st = self.store.0.lock().unwrap();
+        if cmd != GateCmd::FailBefore {
+            if let Some(r) = st.pending[self.client].take() {
+                let c = self.client;
+                st.log.push((c, r));
+            }
+        }
+        cmd
+    }
+}
+
+fn injected() -> Error {
+    Error::Server("injected fault".into())
+}
+
+#[async_trait]
+impl Service for MemService {
+    async fn put(&mut self, name: &str, value: &[u8]) -> Result<()> {
+        let cmd = self.gate(SvcReq::Put(name.into(), value.to_vec())).await;
+        if cmd == GateCmd::FailBefore {
+            return Err(injected());
+        }
+        {
+            let mut st = self.store.0.lock().unwrap();
+            let now = st.now;
+            st.objects.insert(name.into(), (value.to_vec(), now));
+        }
+        if cmd == GateCmd::FailAfter {
+            return Err(injected());
+        }
+        Ok(())
+    }
+
+    async fn get(&mut self, name: &str) -> Result<Option<Vec<u8>>> {
+        let cmd = self.gate(SvcReq::Get(name.into())).await;
+        if cmd != GateCmd::Proceed {
+            return Err(injected());
+        }
+        let st = self.store.0.lock().unwrap();
+        Ok(st.objects.get(name).map(|(v, _)| v.clone()))
+    }
+
+    async fn del(&mut self, name: &str) -> Result<()> {
+        let cmd = self.gate(SvcReq::Del(name.into())).await;
+        if cmd == GateCmd::FailBefore {
+            return Err(injected());
+        }
+        self.store.0.lock().unwrap().objects.remove(name);
+        if cmd == GateCmd::FailAfter {
+            return Err(injected());
+        }
+        Ok(())
+    }
+
+    async fn list<'a>(&'a mut self, prefix: &'a str) -> Box<dyn AsyncObjectIterator + Send + 'a> {
+        Box::new(MemIter {
+            svc: self,
+            prefix: prefix.to_string(),
+            last: None,
+            page: vec![],
+            done: false,
+        })
+    }
+
+    async fn compare_and_swap(
+        &mut self,
+        name: &str,
+        existing_value: Option<Vec<u8>>,
+        new_value: Vec<u8>,
+    ) -> Result<bool> {
+        let cmd = self
+            .gate(SvcReq::Cas(
+                name.into(),
+                existing_value.clone(),
+                new_value.clone(),
+            ))
+            .await;
+        if cmd == GateCmd::FailBefore {
+            return Err(injected());
+        }
+        let swapped = {
+            let mut st = self.store.0.lock().unwrap();
+            let cur = st.objects.get(name).map(|(v, _)| v.clone());
+            if cur == existing_value {
+                let now = st.now;
+                st.objects.insert(name.into(), (new_value, now));
+                true
+            } else {
+                false
+            }
+        };
+        if cmd == GateCmd::FailAfter {
+            return Err(injected());
+        }
+        Ok(swapped)
+    }
+}
+
+struct MemIter<'a> {
+    svc: &'a mut MemService,
+    prefix: String,
+    last: Option<String>,
+    page: Vec<ObjectInfo>,
+    done: bool,
+}
+
+#[async_trait]
+impl AsyncObjectIterator for MemIter<'_> {
+    async fn next(&mut self) -> Option<Result<ObjectInfo>> {
+        if self.page.is_empty() && !self.done {
+            // fetch the next page: names after the last one returned, as the store is now
+            let cmd = self
+                .svc
+                .gate(SvcReq::ListPage(self.prefix.clone(), self.last.clone()))
+                .await;
+            if cmd != GateCmd::Proceed {
+                self.done = true;
+                return Some(Err(injected()));
+            }
+            let st = self.svc.store.0.lock().unwrap();
+            let mut page: Vec<ObjectInfo> = st
+                .objects
+                .iter()
+                .filter(|(k, _)| {
+                    k.starts_with(&self.prefix)
+                        && self.last.as_ref().map(|l| *k > l).unwrap_or(true)
+                })
+                .take(st.page_size)
+                .map(|(k, (_, c))| ObjectInfo {
+                    name: k.clone(),
+                    creation: *c,
+                })
+                .collect();
+            if page.len() < st.page_size {
+                self.done = true;
+            }
+            if let Some(l) = page.last() {
+                self.last = Some(l.name.clone());
+            }
+            page.reverse();
+            self.page = page;
+        }
+        self.page.pop().map(Ok)
+    }
+}
+
+/// The object-store server over a [`MemStore`].
+pub struct VerifCloud(CloudServer<MemService>);
+
+impl VerifCloud {
+    pub async fn new(store: MemStore, client: usize, secret: Vec<u8>) -> Result<VerifCloud> {
+        Ok(VerifCloud(
+            CloudServer::new(MemService::new(store, client), secret).await?,
+        ))
+    }
+
+    /// run the cleanup routine now
+    pub async fn cleanup(&mut self) -> Result<()> {
+        self.0.verif_cleanup().await
+    }
+}
+
+#[async_trait(?Send)]
+impl Server for VerifCloud {
+    async fn add_version(
+        &mut self,
+        parent_version_id: VersionId,
+        history_segment: HistorySegment,
+    ) -> Result<(AddVersionResult, SnapshotUrgency)> {
+        self.0.add_version(parent_version_id, history_segment).await
+    }
+    async fn get_child_version(
+        &mut self,
+        parent_version_id: VersionId,
+    ) -> Result<GetVersionResult> {
+        self.0.get_child_version(parent_version_id).await
+    }
+    async fn add_snapshot(&mut self, version_id: VersionId, snapshot: Snapshot) -> Result<()> {
+        self.0.add_snapshot(version_id, snapshot).await
+    }
+    async fn get_snapshot(&mut self) -> Result<Option<(VersionId, Snapshot)>> {
+        self.0.get_snapshot().await
+    }
+}
+
+thread_local! {
+    static RANDINT: std::cell::Cell<Option<u8>> = const { std::cell::Cell::new(None) };
+    static FAILPOINT: std::cell::RefCell<Option<(String, usize)>> = const { std::cell::RefCell::new(None) };
+    static FAILPOINT_TRACE: std::cell::RefCell<Vec<String>> = const { std::cell::RefCell::new(Vec::new()) };
+}
+
+/// Replace the object-store server's random draws (cleanup probability, snapshot urgency) on
+/// this thread by a fixed value; `None` restores the real generator.
+pub fn set_randint(v: Option<u8>) {
+    RANDINT.with(|r| r.set(v));
+}
+
+pub(in crate::server) fn randint_override() -> Option<u8> {
+    RANDINT.with(|r| r.get())
+}
+
+/// Arm the failpoint `name` on this thread: its `skip`-th next visit (0 = the next one) fails.
+pub fn arm_failpoint(name: Option<(&str, usize)>) {
+    FAILPOINT.with(|f| *f.borrow_mut() = name.map(|(n, k)| (n.to_string(), k)));
+}
+
+/// The failpoints visited on this thread since the last call.
+pub fn take_failpoint_trace() -> Vec<String> {
+    FAILPOINT_TRACE.with(|t| std::mem::take(&mut *t.borrow_mut()))
+}
+
+/// A named point between two internal steps of a backend: a no-op unless armed.
+pub(in crate::server) fn failpoint(name: &str) -> Result<()> {
+    FAILPOINT_TRACE.with(|t| t.borrow_mut().push(name.to_string()));
+    let fire = FAILPOINT.with(|f| {
+        let mut f = f.borrow_mut();
+        match f.as_mut() {
+            Some((n, k)) if n == name => {
+                if *k == 0 {
+                    *f = None;
+                    true
+                } else {
+                    *k -= 1;
+                    false
+                }
+            }
+            _ => false,
+        }
+    });
+    if fire {
+        Err(Error::Server(format!("injected fault at {name}")))
+    } else {
+        Ok(())
+    }
+}
+
+/// Seal `payload` for `version_id` under the key derived from `secret` and `salt`.
+pub fn seal(secret: &[u8], salt: &[u8], version_id: VersionId, payload: Vec<u8>) -> Result<Vec<u8>> {
+    let cryptor = Cryptor::new(salt, &secret.to_vec().into())?;
+    let sealed = cryptor.seal(Unsealed {
+        version_id,
+        payload,
+    })?;
+    Ok(sealed.as_ref().to_vec())
+}
+
+/// Open a sealed value.
+pub fn unseal(secret: &[u8], salt: &[u8], version_id: VersionId, sealed: Vec<u8>) -> Result<Vec<u8>> {
+    let cryptor = Cryptor::new(salt, &secret.to_vec().into())?;
+    let unsealed = cryptor.unseal(Sealed {
+        version_id,
+        payload: sealed,
+    })?;
+    Ok(unsealed.into())
+}
